@@ -174,7 +174,8 @@ func runStreamJob(job *Job, res *Result) {
 			}
 			if rerun {
 				if st := statAll(".")[cp]; st != before[cp] {
-					add("rerun-modified", fmt.Sprintf("the consumer's output %s was modified by the second run (%s -> %s)", cp, before[cp], st), "")
+					_ = st
+					add("rerun-modified", fmt.Sprintf("the consumer's output %s was modified by the second run (inode / mtime_ns / size changed)", cp), "")
 				}
 			}
 		}
